@@ -465,6 +465,7 @@ def check_property(pid, tier, seed):
         'trusted_base': ['Lean 4.33.0 kernel', 'axioms: propext, Classical.choice, Quot.sound (audited per theorem on this run)',
                          'Mathlib v4.33.0 (imported module by module in proof files)',
                          'tools/pvtx.py (translator: source text -> Generated/*.lean)',
+                         'tools/rs2lean.py (translator: function bodies -> Generated/Fns*.lean, tied to the model by the Proofs/Tie*.lean theorems listed here)',
                          'harness/pvh + lean driver (correspondence: same requests through the crate and the model)']
                         + P.get('trusted', []),
         'theorems': proof['theorems'],
